@@ -640,6 +640,12 @@ impl crate::UntypedExpr {
             {
                 *suffix = *ty;
             }
+            (ExprEnum::ArrayLiteral(elems), Type::Array(elem_ty, 0)) if elems.is_empty() => {
+                // `[]` has no element to take the element type from: it stands for `[e; 0]`
+                if let Some(elem) = default_literal_expr(checked, elem_ty, self.meta) {
+                    self.inner = ExprEnum::ArrayRepeatLiteral(Box::new(elem), 0);
+                }
+            }
             (
                 ExprEnum::ArrayLiteral(elems),
                 Type::Array(elem_ty, _) | Type::ArrayConst(elem_ty, _),
@@ -690,6 +696,46 @@ impl crate::UntypedExpr {
     }
 }
 
+/// Some literal expression of the specified type (the element of the repeat literal `[e; 0]` that an
+/// empty array literal `[]` stands for).
+fn default_literal_expr(
+    checked: &TypedProgram,
+    ty: &Type,
+    meta: crate::token::MetaInfo,
+) -> Option<Expr<()>> {
+    let default = |ty: &Type| default_literal_expr(checked, ty, meta);
+    let expr = match ty {
+        Type::Bool => ExprEnum::False,
+        Type::Unsigned(ty) => ExprEnum::NumUnsigned(0, *ty),
+        Type::Signed(ty) => ExprEnum::NumSigned(0, *ty),
+        Type::Array(elem_ty, size) => ExprEnum::ArrayRepeatLiteral(Box::new(default(elem_ty)?), *size),
+        Type::Tuple(fields) => {
+            ExprEnum::TupleLiteral(fields.iter().map(default).collect::<Option<_>>()?)
+        }
+        Type::Struct(name) => {
+            let struct_def = checked.struct_defs.get(name)?;
+            let mut fields = Vec::with_capacity(struct_def.fields.len());
+            for (field_name, field_ty) in struct_def.fields.iter() {
+                fields.push((field_name.clone(), default(field_ty)?));
+            }
+            fields.sort_by(|(f1, _), (f2, _)| f1.cmp(f2));
+            ExprEnum::StructLiteral(name.clone(), fields)
+        }
+        Type::Enum(name) => match checked.enum_defs.get(name)?.variants.first()? {
+            Variant::Unit(variant_name) => {
+                ExprEnum::EnumLiteral(name.clone(), variant_name.clone(), VariantExprEnum::Unit)
+            }
+            Variant::Tuple(variant_name, field_types) => ExprEnum::EnumLiteral(
+                name.clone(),
+                variant_name.clone(),
+                VariantExprEnum::Tuple(field_types.iter().map(default).collect::<Option<_>>()?),
+            ),
+        },
+        _ => return None,
+    };
+    Some(Expr::untyped(expr, meta))
+}
+
 impl TypedExpr {
     /// Converts a type-checked literal expr (or returns the location of the part that is no literal).
     fn into_literal(self) -> Result<Literal, crate::token::MetaInfo> {
@@ -718,6 +764,11 @@ impl TypedExpr {
                 } else {
                     panic!("Literal type is not a number type: {ty:?}")
                 }
+            }
+            ExprEnum::ArrayRepeatLiteral(elem, 0) => {
+                // (printed as `[]`; the element has to be a literal nonetheless)
+                elem.into_literal()?;
+                Literal::Array(vec![])
             }
             ExprEnum::ArrayRepeatLiteral(elem, size) => {
                 Literal::ArrayRepeat(Box::new(elem.into_literal()?), size)
